@@ -367,6 +367,14 @@ impl<'a> Gen<'a> {
             self.fun(Function::Sum, vec![Node::EmptyArgKind, Node::EmptyArgKind, Node::EmptyArgKind]), self.fun(Function::True, vec![]), self.fun(Function::False, vec![]),
             self.fun(Function::Concat, vec![st("a")]), self.fun(Function::Filter, vec![range(1, 1, 2, 2), range(1, 4, 2, 4)]), self.fun(Function::Ifs, vec![Node::BooleanKind(true), num(1.0)]),
             at(range(1, 1, 2, 1)), spill(rref(1, 1)), at(self.defname()),
+            // identifiers that START like a reference of the other notation (the stored form is read back in R1C1 mode, the
+            // display forms in A1 mode) or like a boolean, in each role: variable, defined name (global / local), LET name,
+            // LAMBDA parameter, user function
+            var("R2C2_total"), var("R1C1.rate"), var("RC_x"), var("R1C1x"), var("r3c4z"), var("A1_x"), var("XFD1x"), var("TRUE1"), var("FALSE_x"),
+            Node::DefinedNameKind(("R2C2_sum".into(), None, "Sheet1!$B$1".into())), Node::DefinedNameKind(("RC_loc".into(), Some(0), "Sheet1!$B$2".into())), Node::DefinedNameKind(("A1_name".into(), None, "Sheet1!$B$3".into())),
+            self.fun(Function::Let, vec![var("R1C1.rate"), num(2.0), mul(var("R1C1.rate"), num(3.0))]), self.fun(Function::Let, vec![var("XFD1x"), num(2.0), var("XFD1x")]),
+            self.lambda("RC_x,R2C2_total", mul(var("RC_x"), var("R2C2_total"))), self.lambda_call("R1C1x,A1_x", add(var("R1C1x"), var("A1_x")), vec![num(1.0), num(2.0)]),
+            self.named("r1c1fn", vec![num(1.0), num(2.0)]), self.named("a1_fn", vec![num(1.0)]),
         ];
         for e in ERRORS.iter() { l.push(Node::ErrorKind(e.clone())); }
         let mut out = vec![];
